@@ -15,7 +15,7 @@ THEOREMS = ["PotasscoVerif.C07.C07_fields_exact", "PotasscoVerif.C07.C07_ext_gat
             "PotasscoVerif.C07.Spec.ruleOf", "PotasscoVerif.C07.Spec.sum", "PotasscoVerif.C07.rulesLoop_sound", "PotasscoVerif.C07.rulesLoop_complete",
             "PotasscoVerif.C07.symbolsLoop_sound", "PotasscoVerif.C07.symbolsLoop_complete", "PotasscoVerif.C07.compute_sound", "PotasscoVerif.C07.compute_complete",
             "PotasscoVerif.C07.extra_sound", "PotasscoVerif.C07.extra_complete", "PotasscoVerif.C07.step_sound", "PotasscoVerif.C07.step_complete"]
-PARTIAL = {}
+PARTIAL = {"configurable atom limit": "the reader model and the grammar Prog7 have the default atom limit 2^31-1 (ProgramReader's initial varMax_); with a limit lowered by setMaxVar the implementation is checked against the reference acceptor with that limit (a third of the texts, limits 1..100), not against the model"}
 BSIZES = (16, 17, 4096)
 RULE = ("well-formed (optionally clasp-extended, 1-3 step) smodels texts with random layout, then at most one mutation (numeric field -> 2^31, 2^32+-1, 2^63, 2^64+1, 10^40, 0, "
         "value+-1, unknown rule type, 90/91/92 without extensions; truncation; token deleted/duplicated); distinct = distinct (ext,text); non-trivial = at least 10 tokens")
